@@ -83,6 +83,14 @@ def limit_best(ctx):
 
 # ------------------------------------------------------------------ evaluator clauses per logic (interpreted on concrete families)
 
+WORLD = 7       # the world every evaluator clause is asked about; callees under contract must receive it
+
+def world_forwarded(m):
+    """every callee under contract (value_of on parts, the base _unquantify_values / _unmodal_values) was asked about WORLD.
+    Only modal logics have more than one world: elsewhere the argument is unobservable and not demanded."""
+    if not m.logic.Meta.modal: return True
+    return all(kw.get('world') == WORLD for _, kw in m.kw_seen)
+
 def work_logic(lname):
     from pytableaux.logics import registry
     from pytableaux.lang import Operator, Quantifier
@@ -102,13 +110,15 @@ def work_logic(lname):
             m = EvalModel(logic, {id(p): v for p, v in zip(parts, tup)})
             s = SentTok(head=op, parts=parts)
             try:
-                prs = explore(lambda path: Interp(path, eval_world(m)).call(m.sym_getattr(Interp(path, eval_world(m)), 'value_of_operated'), [s], {}))
+                prs = explore(lambda path: Interp(path, eval_world(m)).call(m.sym_getattr(Interp(path, eval_world(m)), 'value_of_operated'), [s], dict(world=WORLD)))
             except Outside as e:
                 results.append(Result(f'C08.{L}.operated.truth-functional', 'unknown', detail=f'outside subset: {e}')); bad = None; break
             note(m)
             want = S.NAME[sem.op(op.name, *[S.VAL[v.name] for v in tup])]
             if len(prs) != 1 or prs[0].kind != 'return' or not isinstance(prs[0].value, ValName) or prs[0].value.name != want:
                 bad.append(dict(operator=op.name, args=[v.name for v in tup], got=str(prs[0].value if prs else None), want=want))
+            elif not world_forwarded(m):
+                bad.append(dict(operator=op.name, args=[v.name for v in tup], note=f'the operands are not evaluated at the world asked about: callees received {m.kw_seen[:3]}'))
         if bad is None: break
     if bad is not None:
         results.append(discharge(enum_ob(f'C08.{L}.operated.truth-functional', not bad, logic=L, clause='value_of_operated(op(s1..sn)) = table_op(value_of(s1), .., value_of(sn))', cex=(bad[0] if bad else None), cex_all=bad or None)))
@@ -123,13 +133,15 @@ def work_logic(lname):
                 m = EvalModel(logic, family=list(fam))
                 s = SentTok(quantifier=q)
                 try:
-                    prs = explore(lambda path: (lambda it: it.call(m.sym_getattr(it, 'value_of_quantified'), [s], {}))(Interp(path, eval_world(m))))
+                    prs = explore(lambda path: (lambda it: it.call(m.sym_getattr(it, 'value_of_quantified'), [s], dict(world=WORLD)))(Interp(path, eval_world(m))))
                 except Outside as e:
                     results.append(Result(f'C08.{L}.quantified.{q.name}', 'unknown', detail=f'outside subset: {e}')); bad = None; break
                 note(m)
                 want = S.NAME[(sem.exists if q.name == 'Existential' else sem.forall)([S.VAL[v.name] for v in fam])]
                 if len(prs) != 1 or prs[0].kind != 'return' or getattr(prs[0].value, 'name', None) != want:
                     bad.append(dict(family=[v.name for v in fam], got=str(prs[0].value if prs and prs[0].kind == 'return' else (prs[0].value.cls.__name__ if prs else None)), want=want))
+                elif not world_forwarded(m):
+                    bad.append(dict(family=[v.name for v in fam], note=f'the instances are not evaluated at the world asked about: callees received {m.kw_seen[:3]}'))
             if bad is not None:
                 results.append(discharge(enum_ob(f'C08.{L}.quantified.{q.name}', not bad, logic=L, clause='value of a quantified sentence = the logic\'s generalised disjunction/conjunction of the instance values (all families of size 1..3)',
                                                  cex=(bad[0] if bad else None), cex_all=bad or None)))
@@ -140,13 +152,15 @@ def work_logic(lname):
                 m = EvalModel(logic, family=list(fam))
                 s = SentTok(head=op, parts=[SentTok()])
                 try:
-                    prs = explore(lambda path: (lambda it: it.call(m.sym_getattr(it, 'value_of_operated'), [s], {}))(Interp(path, eval_world(m))))
+                    prs = explore(lambda path: (lambda it: it.call(m.sym_getattr(it, 'value_of_operated'), [s], dict(world=WORLD)))(Interp(path, eval_world(m))))
                 except Outside as e:
                     results.append(Result(f'C08.{L}.modal.{op.name}', 'unknown', detail=f'outside subset: {e}')); bad = None; break
                 note(m)
                 want = S.NAME[(sem.poss if op.name == 'Possibility' else sem.nec)([S.VAL[v.name] for v in fam])]
                 if len(prs) != 1 or prs[0].kind != 'return' or getattr(prs[0].value, 'name', None) != want:
                     bad.append(dict(family=[v.name for v in fam], got=str(prs[0].value if prs and prs[0].kind == 'return' else None), want=want))
+                elif not world_forwarded(m):
+                    bad.append(dict(family=[v.name for v in fam], note=f'the accessible worlds are not taken from the world asked about: callees received {m.kw_seen[:3]}'))
             if bad is not None:
                 results.append(discharge(enum_ob(f'C08.{L}.modal.{op.name}', not bad, logic=L, clause='value of a modal sentence = generalised disjunction/conjunction over the accessible worlds (all families of size 0..3)',
                                                  cex=(bad[0] if bad else None), cex_all=bad or None)))
@@ -458,6 +472,8 @@ def replay(payload):
     name = payload.get('obligation', '')
     cex = payload.get('counterexample') or {}
     parts = name.split('.')
+    if len(parts) >= 4 and parts[2] in ('quantified', 'operated') and 'note' in cex:
+        return replay_world(parts[1], parts[2], parts[3])
     if len(parts) < 4 or parts[2] not in ('quantified', 'modal') or 'family' not in cex:
         return dict(reproduced=None, detail='see counterexample / meta')
     from pytableaux.logics import registry
@@ -483,3 +499,39 @@ def replay(payload):
         got = m.value_of(s, world=0).name
         want = S.NAME[(sem.poss if parts[3] == 'Possibility' else sem.nec)([S.VAL[v] for v in fam])]
     return dict(reproduced=got != want, detail=f'{parts[1]}: instance/world values {fam}: real value_of({s}) = {got}; spec says {want}')
+
+
+def replay_world(L, kind, which):
+    "a real two-world model whose worlds disagree: the clause must be evaluated at the world asked about"
+    from pytableaux.logics import registry
+    from pytableaux.lang import Atomic, Predicate, Constant, Variable, Operator, Quantifier
+    logic = registry(L); sem = S.spec_of(L)
+    m = logic.Model()
+    vals = list(logic.Meta.values); lo, hi = vals[0], vals[-1]
+    out = []
+    if kind == 'quantified':
+        F = Predicate(0, 0, 1); x = Variable(0, 0); a, b = Constant(0, 0), Constant(1, 0)
+        m.R.add((0, 1))
+        m.set_predicated_value(F(a), hi, world=0); m.set_predicated_value(F(b), hi, world=0)
+        m.set_predicated_value(F(a), hi, world=1); m.set_predicated_value(F(b), lo, world=1)
+        m.finish()
+        for q in Quantifier:
+            s = q(x, F(x))
+            for w, fam in ((0, [hi, hi]), (1, [hi, lo])):
+                got = m.value_of(s, world=w).name
+                want = S.NAME[(sem.exists if q.name == 'Existential' else sem.forall)([S.VAL[v.name] for v in fam])]
+                if got != want: out.append(f'value_of({s}, world={w}) = {got}, the instances at world {w} have values {[v.name for v in fam]}: spec says {want}')
+    else:
+        A, B = Atomic(0, 0), Atomic(1, 0)
+        m.R.add((0, 1))
+        m.set_atomic_value(A, hi, world=0); m.set_atomic_value(B, hi, world=0)
+        m.set_atomic_value(A, lo, world=1); m.set_atomic_value(B, hi, world=1)
+        m.finish()
+        for op in Operator:
+            if op.name not in S.OPERATORS: continue
+            s = op(A) if op.arity == 1 else op(A, B)
+            for w, tup in ((0, [hi, hi]), (1, [lo, hi])):
+                got = m.value_of(s, world=w).name
+                want = S.NAME[sem.op(op.name, *[S.VAL[v.name] for v in tup[:op.arity]])]
+                if got != want: out.append(f'value_of({s}, world={w}) = {got}; table value for the operand values at world {w} is {want}')
+    return dict(reproduced=bool(out), detail=f'{L}: ' + ('; '.join(out[:3]) or 'evaluated at the world asked about'))
